@@ -74,14 +74,26 @@ def store_sites(ctx, rule="OWN-namespace-relative-store"):
     # --- scan: merge of the stacked body state
     body, n = kinds["scan"]
     construct = "state.State.eval_jaxpr_state[scan_p]"
-    merges = [st for s_ in body for st in ast.walk(s_) if isinstance(st, ast.Assign) and unp(st.targets[0]).startswith("self.collected_state[")]
-    uses_ns = any("namespace_stack" in unp(s_) or "namespace_path" in unp(s_) for s_ in body)
-    if merges and not uses_ns:
+    # decided on the evaluator's guarded store events: where do the scan's collected values go?
+    ev = mk_ev(ctx)
+    summ = summarize(ctx, ev, ST + "State.eval_jaxpr_state")
+    SELF_ = ("param", "self")
+    cs, ns = ("attr", SELF_, "collected_state"), ("attr", SELF_, "namespace_stack")
+    merges = []
+    for g, k, pl, ln, q in summ.events:
+        scanned = any(isinstance(c, tuple) and any(x == ("name", "jax.lax.scan_p") for x in subterms(c)) and v for c, v in g)
+        if not scanned:
+            continue
+        if k == "store" and any(x == cs for x in subterms(pl[0])):
+            merges.append((pl[0], any(x == ns for x in subterms(pl[0])), ln))
+        if k == "call" and is_call(pl, name=ST + "_nested_dict_set") and pl[2] and pl[2][0] == cs:
+            merges.append((pl, any(x == ns for x in subterms(pl)), ln))
+    if merges and not all(rel for _, rel, _ in merges):
         ctx.bad(rule, construct, "scan merge stores at the root",
                 "values saved inside a scan body are merged with `self.collected_state[name] = …` at the root, ignoring the enclosing namespace stack "
-                "(and the nested state(body_fun) starts from an empty stack); input: state(namespace(lambda: scan(body_with_save, …), 'ns'))", ctx.loc(mod, merges[0]))
+                "(and the nested state(body_fun) starts from an empty stack); input: state(namespace(lambda: scan(body_with_save, …), 'ns'))", f"{mod.path}:{merges[0][2]}")
     elif merges:
-        ctx.ok(rule, construct, "scan merge is namespace-relative")
+        ctx.ok(rule, construct, "scan merge is relative to the enclosing namespace stack")
     else:
         ctx.bad(rule, construct, "scan state merged", "values saved inside scan bodies are never merged into the collected state", ctx.loc(mod, n))
     # scan re-issued faithfully, body state stacked as part of ys
